@@ -43,6 +43,23 @@ class HarnessError(BaseException):
 
 
 # ---------------------------------------------------------------------------------------------- engine
+def _symbols_of(term):
+    """Names of the uninterpreted constants (input symbols) a term mentions, as one sorted tuple."""
+    seen, names, stack = set(), set(), [term]
+    while stack:
+        t = stack.pop()
+        i = t.get_id()
+        if i in seen:
+            continue
+        seen.add(i)
+        if t.num_args() == 0:
+            if t.decl().kind() == z3.Z3_OP_UNINTERPRETED:
+                names.add(t.decl().name())
+        else:
+            stack.extend(t.children())
+    return tuple(sorted(names))
+
+
 class Engine:
     def __init__(self):
         self.solver = z3.Solver()
@@ -115,9 +132,12 @@ class Engine:
         h = (cond.decl().kind(), cond.num_args())
         if self.pos < _real_len(self.trail):
             v, _, h0 = self.trail[self.pos]
-            if h0 != h:
+            # z3.simplify may give one condition two shapes in two executions ((= (bvor ..) 0) / (and (= ..) ..)): the set of
+            # input symbols it mentions decides whether it is the same decision
+            if h0[:2] != h and h0[2] != _symbols_of(cond):
                 raise Inconclusive("non-deterministic re-execution (decision sequence changed)")
         else:
+            h = h + (_symbols_of(cond),)
             r = self.check(cond)
             if r == z3.unknown:
                 raise Inconclusive("solver unknown at branch")
@@ -1809,6 +1829,12 @@ def dispatch(f, /, *a, **k):
         return join_model(slf, a[0])
     if _real_type(slf) is str and name == "join":
         return join_str_model(slf, a[0])
+    if _real_type(slf) is dict and name == "get" and a and not k and is_proxy(payload(a[0])) and is_intlike(payload(a[0])):
+        ENGINE.models_used.add("dict.get(symbolic int): one branch per integer key")
+        for y, v in slf.items():
+            if _real_isinstance(y, int) and a[0] == y:
+                return v
+        return a[1] if _real_len(a) > 1 else None
     if _real_isinstance(slf, _CONTAINER_TYPES) or _real_type(slf) in PROXY_TYPES or _real_isinstance(slf, SymStream):
         return f(*a, **k)
     if tf is type or _real_isinstance(f, type):
